@@ -15,7 +15,6 @@ set_option linter.unusedVariables false
 namespace Policy
 open Gen.RP
 
-def thr (q : Rat) : Nat := q.ceil.toNat
 
 theorem thr_le_iff (q : Rat) (k : Nat) : thr q ≤ k ↔ q ≤ (k : Rat) := by
   unfold thr
@@ -41,15 +40,6 @@ theorem thr_natCast (n : Nat) : thr (n : Rat) = n := by
 
 /-! ### extended naturals -/
 
-def emin : Option Nat → Option Nat → Option Nat
-  | some a, some b => some (min a b)
-  | some a, none => some a
-  | none, b => b
-
-def emax : Option Nat → Option Nat → Option Nat
-  | some a, some b => some (max a b)
-  | _, _ => none
-
 /-- `x ≤ k` on extended naturals (`∞ ≤ k` is false) -/
 def ele (x : Option Nat) (k : Nat) : Prop := ∃ n, x = some n ∧ n ≤ k
 
@@ -60,33 +50,6 @@ theorem ele_emax {a b : Option Nat} {k : Nat} : ele (emax a b) k ↔ ele a k ∧
   cases a <;> cases b <;> simp [emax, ele] <;> omega
 
 /-! ### bounds of a tree -/
-
-mutual
-def STree.bound (lb : SLeaf → Option Nat) : STree → Option Nat
-  | .leaf l => lb l
-  | .any ts => STree.boundAny lb ts
-  | .all ts => STree.boundAll lb ts
-def STree.boundAny (lb : SLeaf → Option Nat) : List STree → Option Nat
-  | [] => none
-  | t :: ts => emin (t.bound lb) (STree.boundAny lb ts)
-def STree.boundAll (lb : SLeaf → Option Nat) : List STree → Option Nat
-  | [] => some 0
-  | t :: ts => emax (t.bound lb) (STree.boundAll lb ts)
-end
-
-def capLeaf : SLeaf → Option Nat
-  | .afterAttempt q => some (thr q)
-  | _ => none
-
-def loLeaf : SLeaf → Option Nat
-  | .afterAttempt q => some (thr q)
-  | .never => none
-  | _ => some 0
-
-/-- from `cap` failures on the stop condition holds, on every clock -/
-def STree.cap : STree → Option Nat := STree.bound capLeaf
-/-- below `lo` failures the stop condition does not hold, on any clock -/
-def STree.lo : STree → Option Nat := STree.bound loLeaf
 
 theorem capLeaf_sound (l : SLeaf) (k : Nat) (el up : Rat) (h : ele (capLeaf l) k) : l.eval k el up = true := by
   cases l with
